@@ -468,7 +468,8 @@ struct Evidence {
 
 // ------------------------------------------------------------------ runner plumbing
 struct Args {
-    std::string tier = "quick", replay, out = "evidence.json", failing = "failing.case";
+    std::string tier = "quick", replay, out = "evidence.json", failing = "failing.case", digests, digest_of;
+    long dump_index = -1;
     uint64_t seed = 1;
     int shard = 0, nshards = 1;
     std::set<std::string> known;   // signatures listed in known_findings.txt for this property
@@ -494,6 +495,9 @@ static inline Args parse_args(int argc, char **argv) {
         else if (k == "--shard") { std::string s = nx(); sscanf(s.c_str(), "%d/%d", &a.shard, &a.nshards); }
         else if (k == "--scale") a.scale = atof(nx().c_str());
         else if (k == "--no-isolate") a.isolate = false;
+        else if (k == "--digests") a.digests = nx();
+        else if (k == "--digest-of") a.digest_of = nx();
+        else if (k == "--dump-index") a.dump_index = atol(nx().c_str());
         else if (k == "--isolate-n") a.isolate_n = atol(nx().c_str());
         else if (k == "--known") { std::string s = nx(), t; std::istringstream is(s); while (std::getline(is, t, ',')) if (!t.empty()) a.known.insert(t); }
     }
